@@ -291,3 +291,14 @@ def model_str(m):
     for a, v in m.items():
         parts.append(('' if v else '!') + show_term(a))
     return ', '.join(sorted(parts)[:12])
+
+
+def guard_summary(pc):
+    """stable, short rendering of the connection/state related conjuncts of a path condition (used in
+       violation keys so that a *different* guard on the same site is a different finding)"""
+    keep = []
+    for c in conjuncts(pc):
+        at = atoms(c)
+        if at and all((mentions(a, CONN) or mentions(a, STATE)) and 'poll_fn' not in repr(a) for a in at):
+            keep.append(show(c))
+    return ' && '.join(sorted(keep)) or 'true'
